@@ -10,6 +10,7 @@ import (
 	"fmt"
 	"math/rand"
 	"strings"
+	"time"
 
 	"github.com/absfs/absnfs"
 )
@@ -18,10 +19,15 @@ func init() {
 	checks["C08"] = checkC08
 	replays["C08"] = func(r *Result, raw json.RawMessage) {
 		var rp struct {
-			Case c08Case `json:"case"`
+			Case c08Case  `json:"case"`
+			Ops  []string `json:"ops"`
 		}
 		if err := json.Unmarshal(raw, &rp); err != nil {
 			r.Notes = append(r.Notes, "replay: "+err.Error())
+			return
+		}
+		if len(rp.Ops) > 0 && strings.HasPrefix(rp.Ops[0], "late-write") {
+			lateWriteAfterSwitch(r) // the scenario has no input: it is replayed as a whole
 			return
 		}
 		r.noteCase(fmt.Sprint(rp.Case.strings()), true)
@@ -203,6 +209,84 @@ func checkC08(r *Result, rng *rand.Rand, thorough bool) {
 		}
 		if i < 1 {
 			r.sample(c.strings()[:10])
+		}
+	}
+	lateWriteAfterSwitch(r)
+}
+
+// lateWriteAfterSwitch: a WRITE admitted while the export is read-write is slow in the backend and outlives its
+// RPC-level timeout; the export is then switched to read-only. The switch may not complete while that request is
+// still working: once UpdateExportOptions has returned, no modifying backend call may be issued any more.
+func lateWriteAfterSwitch(r *Result) {
+	for _, how := range []string{"policy", "export"} {
+		fs := NewRefFS()
+		seedFS(fs, []string{"file /slow " + hx([]byte("0123456789"))})
+		s, err := newSrv(fs, absnfs.ExportOptions{Timeouts: &absnfs.TimeoutConfig{DefaultTimeout: 80 * time.Millisecond, WriteTimeout: 5 * time.Second}})
+		must(err)
+		root, _ := s.Mount("/")
+		h, _ := s.Lookup(root, "slow", rootCred())
+		gate := make(chan struct{})
+		reached := make(chan struct{}, 1)
+		fs.gate = func(call string) {
+			if strings.HasPrefix(call, "OpenFileW /slow") {
+				select {
+				case reached <- struct{}{}:
+					<-gate
+				default:
+				}
+			}
+		}
+		callerDone := make(chan bool, 1)
+		go func() {
+			rep := s.NFSCall(7, rootCred(), argWrite(h, 0, 4, 2, []byte("late")))
+			callerDone <- rep.Err != nil
+		}()
+		select {
+		case <-reached:
+		case <-time.After(2 * time.Second):
+			r.Notes = append(r.Notes, "late-write: the WRITE never reached the backend")
+			close(gate)
+			s.Close()
+			continue
+		}
+		timedOut := <-callerDone // the caller gave up (80 ms); the worker is still inside OpenFile
+		fs.TakeLog()
+		switched := make(chan struct{})
+		var switchErr error
+		cur := s.NFS.GetExportOptions()
+		go func() {
+			if how == "policy" {
+				switchErr = s.NFS.UpdatePolicyOptions(absnfs.PolicyOptions{Squash: cur.Squash, ReadOnly: true})
+			} else {
+				o := cur
+				o.ReadOnly = true
+				switchErr = s.NFS.UpdateExportOptions(o)
+			}
+			close(switched)
+		}()
+		early := false
+		select {
+		case <-switched:
+			early = true // the switch did not wait for the request that is still working
+		case <-time.After(150 * time.Millisecond):
+		}
+		fs.TakeLog()
+		close(gate)
+		<-switched
+		time.Sleep(30 * time.Millisecond)
+		after := mutatingCalls(fs.TakeLog())
+		fs.gate = nil
+		ro := s.NFS.GetExportOptions().ReadOnly
+		s.Close()
+		if switchErr != nil {
+			r.Notes = append(r.Notes, "late-write: the switch to read-only was refused: "+switchErr.Error())
+			continue
+		}
+		r.noteCase("late-write "+how, true)
+		r.count("late-write:" + how)
+		if ro && early && len(after) > 0 {
+			r.violate(Violation{Class: "modified-after-readonly-switch", What: fmt.Sprintf("a WRITE admitted before the export became read-only (%s; caller timed out: %v) kept working after the switch had returned and made the backend run %v", how, timedOut, after),
+				Ops: []string{"late-write " + how}})
 		}
 	}
 }
